@@ -168,6 +168,8 @@ def run(chk: Check) -> None:
         else:
             r1.violation(f"TypeState.{look}/{rec}: same store, keyed by right.type then kind then (left, right)", lf.loc(), "lookup and record no longer address the same entry")
 
+    run_tuple_siblings(chk, ix)
+
     # ---------------- R08.2
     r2 = chk.rule("R08.2", "for every Type subclass the attributes hashed by __hash__ are compared by __eq__ (equal values hash equal; the memo never misses or conflates because of an uncompared hashed field)", floor=15)
     for c in type_classes(ix):
@@ -180,3 +182,33 @@ def run(chk: Check) -> None:
             r2.ok(key, f"{c.module.relpath}:{c.node.lineno}", f"hash {sorted(h)}")
         else:
             r2.violation(key, f"{c.module.relpath}:{c.node.lineno}", f"__hash__ uses {sorted(extra)} which __eq__ does not compare: two equal {c.name} values can hash differently, so a memoised (left, right) pair is not found again (or, if __eq__ is the weaker one, conflated)")
+
+
+def run_tuple_siblings(chk: Check, ix) -> None:
+    """R08.3: join and meet handle `fixed tuple vs variadic tuple` behind the same arity precondition."""
+    r3 = chk.rule("R08.3", "TypeJoinVisitor.join_tuples and TypeMeetVisitor.meet_tuples split the fixed tuple with split_with_prefix_and_suffix(fixed.items, prefix_len, suffix_len) behind the same early-exit tests and the same definitions of prefix_len / suffix_len (sibling implementations of one case analysis; the split is only meaningful when the fixed tuple has at least prefix_len + suffix_len items)", floor=1)
+    out = {}
+    for q in ("mypy.join.TypeJoinVisitor.join_tuples", "mypy.meet.TypeMeetVisitor.meet_tuples"):
+        f = ix.func(q)
+        calls = [c for c in ast.walk(f.node) if isinstance(c, ast.Call) and call_name(c) == "split_with_prefix_and_suffix" and c.args and "fixed" in norm(c.args[0])]
+        if len(calls) != 1:
+            raise AnalysisError(f"{q}: the split of the fixed tuple was not found")
+        call = calls[0]
+        p_, s_ = norm(call.args[1]), norm(call.args[2])
+        defs = {}
+        guards = []
+        for st in f.node.body:
+            if st.lineno >= call.lineno:
+                break
+            for a in ast.walk(st):
+                if isinstance(a, ast.Assign) and norm(a.targets[0]) in (p_, s_) and a.lineno < call.lineno:
+                    defs[norm(a.targets[0])] = norm(a.value)
+            if isinstance(st, ast.If) and not st.orelse and len(st.body) >= 1 and isinstance(st.body[-1], ast.Return) and ("fixed" in norm(st.test) or "variadic" in norm(st.test) or "unpacked" in norm(st.test)):
+                guards.append(norm(st.test))
+        out[q] = (f, call, tuple(guards), (defs.get(p_), defs.get(s_)))
+    (fj, cj, gj, dj), (fm, cm, gm, dm) = out["mypy.join.TypeJoinVisitor.join_tuples"], out["mypy.meet.TypeMeetVisitor.meet_tuples"]
+    key = "join_tuples / meet_tuples: same guards and same prefix/suffix lengths before splitting the fixed tuple"
+    if gj == gm and dj == dm and gj:
+        r3.ok(key, fj.loc(cj), f"guards {list(gj)}; lengths {dj}")
+    else:
+        r3.violation(key, fj.loc(cj), f"the sibling implementations disagree: join guards {list(gj)} lengths {dj}; meet guards {list(gm)} lengths {dm}. One of them splits a fixed tuple that is shorter than prefix+suffix (overlapping slices): the result is not a bound of both operands")
